@@ -38,120 +38,199 @@ def run(F, R, tier):
     R.undecided += ["actual interleavings of the concurrently polled futures (a scheduler experiment); R2 decides the structural independence: each future pairs its own DID with its own result, no shared mutable state",
                     "determinism of user-supplied handlers"]
 
+    P = lambda x: sym.Sym(("param", x))  # noqa: E731
+
     # ------------------------------------------------------------------ R1 dispatch
-    r1 = R.rule("C20-R1", "T2+T3", "resolve: the handler applied is command_map.get(did.method()) on its Some edge, applied to did.as_str(); an unknown method yields UnsupportedMethodError and calls nothing")
+    r1 = R.rule("C20-R1", "T8", "evaluated abstractly on a handler table {m0→c0, m1→c1}: resolve applies exactly the command stored under did.method() to did.as_str() and returns its result; no entry → Err(UnsupportedMethodError) with no handler applied; attach_handler (both command kinds) stores Command::new(handler) under the given method, replacing an earlier entry and touching no other; attach_did_jwk_handler registers expand_did_jwk under DIDJwk::METHOD")
     fn = RS + "::resolve"
-    h = F.hir(fn)
-    body = F.mir(fn)
-    if r1.anchor(h, fn) and r1.anchor(body, fn):
-        env = H.Env(h)
-        gets = [n for n in H.walk(H.root(h)) if n.get("k") == "mcall" and n["name"] == "get" and (H.fn_name(n) or "").endswith("HashMap::get")]
-        if r1.require(len(gets) == 1, (fn, "lookup"), "expected exactly one command_map.get(..)"):
-            ro = H.origins(gets[0]["recv"], env)
-            ko = H.origins(gets[0]["args"][0], env, accessors=ACC)
-            r1.site("lookup: %s .get(%s)" % (sorted(map(str, ro)), sorted(map(str, ko))), gets[0]["sp"])
-            r1.require(ro == {("param", "self", "command_map")}, (fn, "table"), "the handler is not looked up in self.command_map")
-            r1.require(ko == {("param", "did", "method")}, (fn, "key"), "the handler is not looked up under did.method(): %s" % sorted(map(str, ko)))
-        ap = [n for n in H.walk(H.root(h)) if n.get("k") == "mcall" and n["name"] == "apply"]
-        if r1.require(len(ap) == 1, (fn, "apply"), "expected exactly one handler application"):
-            do = H.origins(ap[0]["recv"], env)
-            ao = H.origins(ap[0]["args"][0], env, accessors=ACC)
-            r1.site("delegate.apply(%s) with delegate ← %s" % (sorted(map(str, ao)), sorted(map(str, do))), ap[0]["sp"])
-            r1.require(do == {("call", "std::collections::hash::map::HashMap::get")}, (fn, "delegate"), "the applied handler is not the one looked up: %s" % sorted(map(str, do)))
-            r1.require(ao == {("param", "did", "as_str")}, (fn, "argument"), "the handler is not applied to did.as_str(): %s" % sorted(map(str, ao)))
-            tree = H.Tree(h)
-            tried = {(H.fn_name(c) or "").rsplit("::", 1)[-1] for c in H.tried_calls(tree.preceding(ap[0]))}
-            r1.require("get" in tried or "ok_or_else" in tried, (fn, "some-edge"), "the handler is applied without the lookup having succeeded")
-        allv = {H.variant_name(x.get("res", {})) for x in H.walk(H.root(h)) if x.get("k") in ("path", "struct")}
-        r1.require("UnsupportedMethodError" in allv, (fn, "unsupported"), "an unknown method is not reported as UnsupportedMethodError")
-        # MIR: the apply call is reachable only through the success edge of the lookup
-        code = F.mir(fn)
-        aps = code.calls(re.compile(r"Command(<.*>)?(>)?::apply$"))
-        if r1.require(len(aps) == 1, (fn, "apply-mir"), "handler application not found on the CFG"):
-            ok, nc, ne = code.must_pass_success(re.compile(r"HashMap(<.*>)?::get$"), [aps[0][0]])
-            r1.site("CFG: apply reachable only from the Some edge of command_map.get: %s" % ok, aps[0][1]["sp"])
-            r1.require(ok, (fn, "apply-dominated"), "the handler application is reachable on a path where the lookup returned None")
-    for ty in ("SendSyncCommand", "SingleThreadedCommand"):
-        cands = F.find(r"^<identity_resolver::resolution::resolver::Resolver<.*%s.*>>::attach_handler$|^identity_resolver::resolution::resolver::Resolver::attach_handler$" % ty)
-    ah = [p for p in F.find(r"Resolver::attach_handler$")]
-    n_ins = 0
-    for p in F.bodies_all.get(RS + "::attach_handler", []):
-        hh = p.get("hir")
-        if not hh:
-            continue
-        env = H.Env(hh)
-        ins = [n for n in H.walk(H.root(hh)) if n.get("k") == "mcall" and n["name"] == "insert"]
-        for i_ in ins:
-            n_ins += 1
-            ko = H.origins(i_["args"][0], env)
-            vo = H.origins(i_["args"][1], env)
-            r1.site("attach_handler: command_map.insert(%s, %s)" % (sorted(map(str, ko)), sorted(L.short(o[1]) for o in vo if o[0] == "call")), i_["sp"])
-            r1.require(ko == {("param", "method")}, (RS + "::attach_handler", "key"), "the handler is not registered under the given method string")
-            r1.require(bool(vo) and all(o[0] == "call" and re.search(r"(SendSync|SingleThreaded)Command::new$", o[1]) for o in vo), (RS + "::attach_handler", "value"), "the registered command is not built from the given handler")
-            for c in H.calls(hh, re.compile(r"(SendSync|SingleThreaded)Command::new$")):
-                r1.require(H.origins(c["args"][0], env) == {("param", "handler")}, (RS + "::attach_handler", "handler"), "the command does not wrap the given handler")
-    r1.require(n_ins == 2, (RS + "::attach_handler", "both-kinds"), "expected attach_handler for both command kinds (2 insertions), found %d" % n_ins)
-    for p in F.bodies_all.get(RS + "::attach_did_jwk_handler", []):
-        hh = p.get("hir")
-        if not hh:
-            continue
-        env = H.Env(hh)
-        for c in H.calls(hh, RS + "::attach_handler"):
-            a = H.call_args(c)
-            ko = H.origins(a[1], env, extra=re.compile(r"to_string$"))
-            fns = H.called_fns(H.root(hh))
-            r1.site("attach_did_jwk_handler registers %s → expand_did_jwk" % sorted(map(str, ko)), c["sp"])
-            r1.require(ko == {("def", "identity_did::did_jwk::DIDJwk::METHOD")}, (RS + "::attach_did_jwk_handler", "method"), "did:jwk handler is not registered under DIDJwk::METHOD")
-            r1.require(CD + "::expand_did_jwk" in fns, (RS + "::attach_did_jwk_handler", "handler"), "did:jwk handler does not expand the DID with CoreDocument::expand_did_jwk")
-    r1.floor(7)
+    if r1.anchor(F.hir(fn), fn):
+        ev = sym.Evaluator(F, opaque=r"DID::(method|as_str)$|Command::apply$", inline_depth=6, concrete_vec=True)
+        table = [("m0", "c0"), ("m1", "c1")]
+
+        def mk():
+            return [sym.St(RS, {"command_map": sym.MapV([(k, P(c)) for k, c in table])}), P("did")]
+        try:
+            paths = ev.explore(fn, args=mk)
+        except (sym.Abort, sym.TooManyPaths) as e:
+            paths = []
+            r1.fail((fn, "not-evaluable"), "Resolver::resolve could not be evaluated: %s" % e)
+        METHOD = ("call", "identity_did::did::DID::method", (("param", "did"),))
+        seen = set()
+        for q in paths:
+            if not q.complete:
+                r1.fail((fn, "not-evaluable"), "Resolver::resolve: a path could not be evaluated to the end (%s)" % q.note)
+                continue
+            # which entry does this path's world select?
+            val = {}
+            for (a, c, _, _) in q.decisions:
+                if a[0] == "eq":
+                    lits = [x[1] for x in (a[1], a[2]) if isinstance(x, tuple) and x[:1] == ("lit",)]
+                    other = [x for x in (a[1], a[2]) if not (isinstance(x, tuple) and x[:1] == ("lit",))]
+                    if len(lits) == 1 and other and SR.pure(other[0], METHOD, conv=re.compile(r"(as_ref|as_str|borrow|deref|to_owned|to_string|clone|into|from)$")):
+                        val[lits[0]] = bool(c)
+                    elif len(lits) == 1:
+                        r1.fail((fn, "key"), "the handler table is searched under %s, not under did.method()" % sym.fmt(other[0] if other else a[1]))
+            hit = [k for k, _ in table if val.get(k) is True]
+            aps = q.calls(r"Command::apply$")
+            if hit:
+                seen.add(hit[0])
+                want = dict(table)[hit[0]]
+                ok = len(aps) == 1 and sym.term(aps[0].args[0]) == ("param", want)
+                r1.require(ok, (fn, "delegate"), "did.method() == %s: the command applied is %s, not the one registered under that method (%s)" % (hit[0], [sym.fmt(sym.term(e.args[0])) for e in aps], want))
+                if ok:
+                    arg = sym.term(aps[0].args[1])
+                    r1.require(arg == ("call", "identity_did::did::DID::as_str", (("param", "did"),)) or SR.pure(arg, ("call", "identity_did::did::DID::as_str", (("param", "did"),))), (fn, "argument"), "the handler is not applied to did.as_str(): %s" % sym.fmt(arg))
+                    r1.require(q.ret is not None and SR.pure(q.ret, aps[0].result.t), (fn, "returns"), "resolve does not return the result of the handler it applied: %s" % (q.ret,))
+            elif all(val.get(k) is False for k, _ in table):
+                seen.add(None)
+                r1.require(not aps, (fn, "apply-dominated"), "a handler is applied although no entry matches did.method()")
+                r1.require(SR.is_failure(q.ret) and "UnsupportedMethodError" in str(q.ret), (fn, "unsupported"), "an unknown method is not reported as UnsupportedMethodError: %s" % (q.ret,))
+            else:
+                r1.fail((fn, "lookup"), "a path of resolve does not decide the method against the whole handler table: %s" % q.describe()[:200])
+        r1.site("resolve: dispatch table over {m0, m1, unknown}: rows seen %s" % sorted(map(str, seen)))
+        r1.require(seen == {"m0", "m1", None} or not paths, (fn, "lookup"), "resolve does not dispatch on did.method() over the whole table (rows %s)" % sorted(map(str, seen)))
+    # attach_handler: both impl blocks share one path
+    bodies = [b for b in F.bodies_all.get(RS + "::attach_handler", []) if b.get("hir")]
+    r1.require(len(bodies) == 2, (RS + "::attach_handler", "both-kinds"), "expected attach_handler for both command kinds, found %d" % len(bodies))
+    for bi_, b in enumerate(bodies):
+        ev = sym.Evaluator(F, opaque=r"Command::new$", inline_depth=6, concrete_vec=True)
+
+        def mk():
+            return [sym.St(RS, {"command_map": sym.MapV([("m0", P("c0")), ("m1", P("c1"))])}), P("method"), P("handler")]
+
+        def fin(p_, a):
+            p_.final = [(k, sym.term(v)) for k, v in a[0].f["command_map"].items] if isinstance(a[0].f.get("command_map"), sym.MapV) else None
+        try:
+            paths = ev.explore(RS + "::attach_handler", args=mk, finalize=fin, hir=b["hir"])
+        except (sym.Abort, sym.TooManyPaths) as e:
+            paths = []
+            r1.fail((RS + "::attach_handler", "not-evaluable"), "attach_handler could not be evaluated: %s" % e)
+        good = bool(paths)
+        for q in paths:
+            if not q.complete or getattr(q, "final", None) is None:
+                r1.fail((RS + "::attach_handler", "not-evaluable"), "attach_handler: a path could not be evaluated to the end (%s)" % q.note)
+                good = False
+                continue
+            same = {k: c for (a, c, _, _) in q.decisions if a[0] == "eq" for k in ("m0", "m1") if ("lit", k) in (a[1], a[2]) and ("param", "method") in (a[1], a[2])}
+            want = {"m0": ("param", "c0"), "m1": ("param", "c1")}
+            tgt = next((k for k in ("m0", "m1") if same.get(k) is True), None)
+            got = {}
+            for k, v in q.final:
+                kk = k if isinstance(k, str) else ("method" if sym.term(k) == ("param", "method") else sym.fmt(sym.term(k)))
+                got[kk] = v
+            stored = got.get(tgt if tgt else "method")
+            okv = isinstance(stored, tuple) and stored[:1] == ("call",) and re.search(r"Command::new$", re.sub(r"<[^<>]*>", "", stored[1])) is not None and stored[2] == (("param", "handler"),)
+            if not okv:
+                good = False
+                r1.fail((RS + "::attach_handler", "value"), "attach_handler leaves %s under the given method (expected Command::new(handler)): re-attaching does not replace the handler, or the command does not wrap the given handler" % (sym.fmt(stored) if stored else "nothing"))
+            others = {k: v for k, v in got.items() if k != (tgt if tgt else "method")}
+            exp = {k: v for k, v in want.items() if k != tgt}
+            if others != exp:
+                good = False
+                r1.fail((RS + "::attach_handler", "key"), "attach_handler changes entries other than the given method: %s" % {k: sym.fmt(v) for k, v in others.items()})
+        r1.site("attach_handler (impl %d): command_map[method] = Command::new(handler), replacing; other entries untouched: %s" % (bi_, good))
+    for b in [b for b in F.bodies_all.get(RS + "::attach_did_jwk_handler", []) if b.get("hir")]:
+        ev = sym.Evaluator(F, opaque=r"Resolver::attach_handler$|CoreDocument::expand_did_jwk$", inline_depth=4)
+        try:
+            paths = [q for q in ev.explore(RS + "::attach_did_jwk_handler", hir=b["hir"]) if q.complete]
+        except (sym.Abort, sym.TooManyPaths):
+            paths = []
+        okj = bool(paths)
+        for q in paths:
+            ah = q.calls(r"Resolver::attach_handler$")
+            if len(ah) != 1:
+                okj = False
+                continue
+            m_ = ah[0].args[1]
+            jm = ev.const_value("identity_did::did_jwk::DIDJwk::METHOD")
+            r1.require(m_ == jm or sym.term(m_) == sym.term(jm), (RS + "::attach_did_jwk_handler", "method"), "did:jwk handler is not registered under DIDJwk::METHOD: %s" % (m_,))
+            hd = ah[0].args[2]
+            okh = False
+            if isinstance(hd, sym.Clo):
+                try:
+                    for hq in ev.explore_closure(hd, [P("did_jwk")]):
+                        ex = hq.calls(r"CoreDocument::expand_did_jwk$")
+                        okh = hq.complete and len(ex) == 1 and sym.term(ex[0].args[0]) == ("param", "did_jwk") and SR.pure(hq.ret, ex[0].result.t)
+                except (sym.Abort, sym.TooManyPaths):
+                    okh = False
+            r1.require(okh, (RS + "::attach_did_jwk_handler", "handler"), "did:jwk handler does not expand the DID it is given with CoreDocument::expand_did_jwk")
+            okj = okj and okh
+        r1.site("attach_did_jwk_handler registers |did_jwk| expand_did_jwk(did_jwk) under DIDJwk::METHOD: %s" % okj)
+    r1.floor(5)
 
     # ------------------------------------------------------------------ R2 order independence
-    r2 = R.rule("C20-R2", "T13+T3", "resolve_multiple: input de-duplicated through a HashSet; each future resolves its own DID and pairs the result with that same DID; results collected into a map with try_collect; no shared mutable state")
+    r2 = R.rule("C20-R2", "T8+T13", "resolve_multiple evaluated abstractly on 0..3 input DIDs, every equality pattern among them, every success/failure pattern of self.resolve and both completion orders of the futures: one resolve per distinct DID; all succeed → a map with exactly one entry per distinct DID whose value is the result of resolving that same DID; one fails → Err; no shared mutable state")
     fn = RS + "::resolve_multiple"
-    h = F.hir(fn)
-    if r2.anchor(h, fn):
-        # by abstract evaluation (async blocks evaluated eagerly on a generic element of the input): every future resolves its own
-        # DID with self.resolve and hands (that DID, its document) to the collector; results come back through try_collect
-        tab = SR.Table(F, fn, opaque=r"Resolver::resolve$", rule=r2)
-        DIDS = SR.param("dids")
-        n_res = 0
-        for q in tab.paths:
-            rs = q.calls(r"Resolver::resolve$")
-            for e in rs:
-                n_res += 1
-                x = sym.term(e.args[1])
-                r2.require(sym.term(e.args[0]) == SR.SELF, (fn, "own-did"), "a future does not resolve with self.resolve")
-                r2.require(SR.derives(x, DIDS) and any(isinstance(z, tuple) and z[:1] == ("elem",) for z in sym.subterms(x)), (fn, "iterates-input"), "the futures are not created from the elements of the input DIDs: %s" % sym.fmt(x))
-                if q.succeeded(e) is True:
-                    doc = ("payload", e.result.t, "Ok", 0)
-                    paired = False
-                    for ev_ in q.events:
-                        if ev_.kind != "call" or ev_ is e:
-                            continue
-                        for a_ in ev_.args:
-                            for z in sym.subterms(sym.term(a_)):
-                                if isinstance(z, tuple) and z[:1] == ("tuple",) and len(z) == 3 and z[1] == x and z[2] == doc:
-                                    paired = True
-                    for z in sym.subterms(sym.term(q.ret)) if q.ret is not None else ():
-                        if isinstance(z, tuple) and z[:1] == ("tuple",) and len(z) == 3 and z[1] == x and z[2] == doc:
-                            paired = True
-                    r2.require(paired, (fn, "paired-by-identity"), "the resolved document is not paired with the DID inside the same future (pairing by position depends on completion order)")
-            if SR.is_success(q.ret) and isinstance(q.ret, (sym.V, sym.Sym)):
-                tcs = [e for e in q.events if e.kind == "call" and e.name == "try_collect"]
-                r2.require(bool(tcs) and SR.derives(q.ret, tcs[-1].result.t), (fn, "returns"), "resolve_multiple does not return the map gathered by try_collect (first error aborts)")
-        r2.site("each future calls self.resolve(&did) on its own element of the input and yields (did, doc): %d resolve call(s) on evaluated paths" % n_res)
-        r2.require(n_res > 0 or not tab.paths, (fn, "own-did"), "no call of self.resolve found on any evaluated path")
-        dedup = [n for n in H.walk(H.root(h)) if n.get("k") == "mcall" and n["name"] == "collect" and any("HashSet" in t for t in (n.get("targs") or []))]
-        dset = [n for n in H.walk(H.root(h)) if n.get("k") == "let" and "HashSet" in (n["pat"].get("ty") or "")]
-        r2.site("input de-duplicated through a HashSet: %s" % bool(dedup or dset))
-        r2.require(bool(dedup or dset), (fn, "dedup"), "the input is not de-duplicated through a HashSet before resolution")
-        tc = [n for n in H.walk(H.root(h)) if n.get("k") == "mcall" and n["name"] == "try_collect"]
-        if r2.require(len(tc) == 1, (fn, "try_collect"), "results are not gathered with try_collect (first error aborts)"):
-            intomap = any("HashMap" in t for t in (tc[0].get("targs") or [])) or any(n.get("k") == "let" and "HashMap" in (n["pat"].get("ty") or "") for n in H.walk(H.root(h)))
-            r2.require(intomap, (fn, "into-map"), "results are not collected into a HashMap keyed by DID")
-            r2.site("futures.try_collect::<HashMap<D, DOC>>().await", tc[0]["sp"])
-        zips = [n for n in H.walk(H.root(h)) if n.get("k") == "mcall" and n["name"] in ("zip", "enumerate")]
-        r2.require(not zips, (fn, "positional"), "results are matched to DIDs by position (zip/enumerate): FuturesUnordered yields in completion order")
+    if r2.anchor(F.hir(fn), fn):
+        n_cases = 0
+        good = True
+        for order in ("fifo", "lifo"):
+            for n in range(4):
+                D = ["d%d" % i for i in range(n)]
+                ev = sym.Evaluator(F, opaque=r"Resolver::resolve$", inline_depth=6, concrete_vec=True)
+                ev.completion = order
+                try:
+                    paths = ev.explore(fn, args=(lambda D=D: [P("self"), [P(x) for x in D]]), max_paths=6000)
+                except (sym.Abort, sym.TooManyPaths) as e:
+                    r2.fail((fn, "not-evaluable"), "resolve_multiple could not be evaluated on %d DID(s): %s" % (n, e))
+                    good = False
+                    break
+                for q in paths:
+                    if not q.complete:
+                        r2.fail((fn, "not-evaluable"), "resolve_multiple on %d DID(s): a path could not be evaluated to the end (%s)" % (n, q.note))
+                        good = False
+                        continue
+                    # the world of this path: equalities among the inputs
+                    cls = {x: x for x in D}
+                    consistent = True
+                    neq = []
+                    for (a, c, _, _) in q.decisions:
+                        if a[0] == "eq" and all(isinstance(t_, tuple) and t_[:1] == ("param",) and t_[1] in cls for t_ in (a[1], a[2])):
+                            x, y = a[1][1], a[2][1]
+                            if c:
+                                rx, ry = cls[x], cls[y]
+                                for k in cls:
+                                    if cls[k] == ry:
+                                        cls[k] = rx
+                            else:
+                                neq.append((x, y))
+                    if any(cls[x] == cls[y] for x, y in neq):
+                        continue      # equality is not transitive for the evaluator: an impossible world
+                    # undecided pairs: the code never compared them, so it treats them as it would distinct ones
+                    rs = q.calls(r"Resolver::resolve$")
+                    resolved = [sym.term(e.args[1]) for e in rs]
+                    names = [t_[1] if isinstance(t_, tuple) and t_[:1] == ("param",) else sym.fmt(t_) for t_ in resolved]
+                    n_cases += 1
+                    ok_ = all(sym.term(e.args[0]) == ("param", "self") for e in rs)
+                    r2.require(ok_, (fn, "own-did"), "a future does not resolve with self.resolve")
+                    reps = {cls[x] for x in D}
+                    if not r2.require(all(x in cls for x in names) and sorted(cls[x] for x in names) == sorted(reps) and len(names) == len(reps), (fn, "dedup"),
+                                      "on input [%s] (%s) self.resolve is called for %s: not exactly once per distinct DID" % (", ".join(D), q.describe()[:120], names)):
+                        good = False
+                        continue
+                    fails = [e for e in rs if q.variant.get(e.result.t) == "Err"]
+                    if fails:
+                        if not r2.require(SR.is_failure(q.ret), (fn, "returns"), "a resolution failed but resolve_multiple returns %s (first error must abort)" % (q.ret,)):
+                            good = False
+                        continue
+                    m_ = q.ret.fields[0] if isinstance(q.ret, sym.V) and q.ret.name == "Ok" and q.ret.fields else None
+                    if not r2.require(isinstance(m_, sym.MapV) and m_.kind == "map", (fn, "into-map"), "all resolutions succeed but the result is not a map keyed by DID: %s" % (q.ret,)):
+                        good = False
+                        continue
+                    keys = []
+                    for k, v in m_.items:
+                        kt = sym.term(k)
+                        kn = kt[1] if isinstance(kt, tuple) and kt[:1] == ("param",) and kt[1] in cls else None
+                        keys.append(kn)
+                        src = [e for e in rs if q.variant.get(e.result.t) != "Err" and SR.pure(v, ("payload", e.result.t, "Ok", 0))]
+                        okp = kn is not None and len(src) == 1 and cls.get(names[rs.index(src[0])]) == cls[kn]
+                        if not r2.require(okp, (fn, "paired-by-identity"), "completion order %s, input [%s]: the entry for %s holds %s — not the document resolved for that DID (pairing by position depends on completion order)" % (
+                                order, ", ".join(D), sym.fmt(kt), sym.fmt(sym.term(v)))):
+                            good = False
+                    if not r2.require(None not in keys and sorted(cls[k] for k in keys if k) == sorted(reps), (fn, "returns"), "input [%s]: the returned map has entries for %s, expected one per distinct DID" % (", ".join(D), keys)):
+                        good = False
+        r2.site("resolve_multiple agrees with the model on 0..3 DIDs × equality patterns × outcome patterns × 2 completion orders (%d paths): %s" % (n_cases, good))
+        r2.require(n_cases >= 30 or not good, (fn, "coverage"), "only %d cases decided: the model check has gone (partly) inert" % n_cases)
     # no interior mutability in Resolver's fields; resolve takes &self
     fs = F.adt_fields(RS)
     if r2.anchor(fs, RS):
@@ -162,78 +241,113 @@ def run(F, R, tier):
     fdef = F.fns.get(RS + "::resolve")
     if r2.anchor(fdef, RS + "::resolve (sig)"):
         r2.require("&'" in fdef["sig"] or "&resolution" in fdef["sig"] or fdef["sig"].startswith("for<") or "(&" in fdef["sig"], (RS + "::resolve", "shared-ref"), "resolve does not take &self")
-    r2.floor(4)
+    r2.floor(2)
 
     # ------------------------------------------------------------------ R3 command siblings
-    r3 = R.rule("C20-R3", "T5", "SendSyncCommand::new and SingleThreadedCommand::new perform the same steps: D::try_from(input) → DIDParsingError, handler(parsed DID), Into<DOC> / HandlerError")
-    sigs = {}
+    r3 = R.rule("C20-R3", "T5+T8", "SendSyncCommand and SingleThreadedCommand, evaluated abstractly (new(handler) then apply(input)): D::try_from(input) fails → Err(DIDParsingError) and the handler is not called; otherwise the handler is called once with exactly the parsed DID; its Ok is returned (converted), its Err → Err(HandlerError); both kinds have the same table; the Command trait is sealed")
+    tables = {}
     for ty in ("SendSyncCommand", "SingleThreadedCommand"):
-        fn = CM + "::" + ty + "::new"
-        h = F.hir(fn)
-        if not r3.anchor(h, fn):
+        nf = CM + "::" + ty + "::new"
+        af = (F.find(r"^<identity_resolver::resolution::commands::%s as identity_resolver::resolution::commands::Command(<.*>)?>::apply$" % ty) or [None])[0]
+        if not (r3.anchor(F.hir(nf), nf) and r3.anchor(F.hir(af) if af else None, ty + "::apply")):
             continue
-        env = H.Env(h)
-        sigs[ty] = sig(H.root(h)).replace(ty, "Command")
-        fns = H.called_fns(H.root(h))
-        vs = {H.variant_name(x.get("res", {})) for x in H.walk(H.root(h)) if x.get("k") in ("struct", "path")}
-        r3.site("%s::new: variants %s" % (ty, sorted(v for v in vs if v.endswith("Error"))), h["value"]["sp"])
-        r3.require({"DIDParsingError", "HandlerError"} <= vs, (fn, "errors"), "%s::new does not map parse/handler failures to DIDParsingError/HandlerError" % ty)
-        tf = H.calls(h, re.compile(r"TryFrom::try_from$"))
-        ok = len(tf) == 1 and any(o[0] == "closure_param" for o in H.origins(tf[0]["args"][0], env))
-        r3.require(ok, (fn, "parse-input"), "%s::new does not parse the input string with D::try_from(input)" % ty)
-        # handler_clone(did): the handler is applied to the parsed DID
-        hc = [n for n in H.walk(H.root(h)) if n.get("k") == "call" and H.local_name(n.get("callee")) == "handler_clone"]
-        okh = len(hc) == 1 and bool(H.origins(hc[0]["args"][0], env)) and all(o[0] == "call" and o[1].endswith("try_from") for o in H.origins(hc[0]["args"][0], env, extra=re.compile(r"map_err$")))
-        r3.require(okh, (fn, "handler-arg"), "%s::new does not call the handler with the DID parsed from the input" % ty)
-    if len(sigs) == 2:
-        same = sigs["SendSyncCommand"] == sigs["SingleThreadedCommand"]
-        r3.site("structural signatures equal: %s" % same)
-        r3.require(same, (CM, "siblings-differ"), "SendSyncCommand::new and SingleThreadedCommand::new are no longer structurally identical")
-    for ty in ("SendSyncCommand", "SingleThreadedCommand"):
-        fn = (F.find(r"^<identity_resolver::resolution::commands::%s as identity_resolver::resolution::commands::Command(<.*>)?>::apply$" % ty) or [None])[0]
-        h = F.hir(fn) if fn else None
-        if r3.anchor(h, ty + "::apply"):
-            env = H.Env(h)
-            calls = [n for n in H.walk(H.root(h)) if n.get("k") == "call" and n.get("callee") is not None]
-            ok = len(calls) == 1 and H.origins(calls[0]["callee"], env) == {("param", "self", "fun")} and H.origins(calls[0]["args"][0], env) == {("param", "input")}
-            r3.site("%s::apply = (self.fun)(input): %s" % (ty, ok))
-            r3.require(ok, (fn, "apply"), "%s::apply does not call the stored function with the input" % ty)
+        ev = sym.Evaluator(F, opaque=r"TryFrom::try_from$", inline_depth=6, concrete_vec=True)
+        rows = set()
+        try:
+            made = [q for q in ev.explore(nf, args=[P("handler")]) if q.complete]
+            if not r3.require(len(made) == 1 and made[0].ret is not None, (nf, "not-evaluable"), "%s::new could not be evaluated to a single command value" % ty):
+                continue
+            cmd = made[0].ret
+            paths = ev.explore(af, args=lambda: [cmd, P("input")])
+        except (sym.Abort, sym.TooManyPaths) as e:
+            r3.fail((nf, "not-evaluable"), "%s could not be evaluated: %s" % (ty, e))
+            continue
+        for q in paths:
+            if not q.complete:
+                r3.fail((nf, "not-evaluable"), "%s::apply: a path could not be evaluated to the end (%s)" % (ty, q.note))
+                continue
+            tf = q.calls(r"TryFrom::try_from$")
+            hc = [e for e in q.events if e.kind == "call" and sym.term(e.args[0] if e.args else None) is not None and re.search(r"handler", e.name or e.fn or "")]
+            if not r3.require(len(tf) == 1 and sym.term(tf[0].args[0]) == ("param", "input"), (nf, "parse-input"), "%s does not parse the input string with D::try_from(input)" % ty):
+                continue
+            parsed = q.variant.get(tf[0].result.t)
+            if parsed == "Err":
+                r3.require(not hc, (nf, "handler-arg"), "%s calls the handler although the input did not parse as a DID" % ty)
+                r3.require(SR.is_failure(q.ret) and "DIDParsingError" in str(q.ret), (nf, "errors"), "%s: a DID parse failure is not reported as DIDParsingError: %s" % (ty, q.ret))
+                rows.add("parse-err")
+                continue
+            if not r3.require(len(hc) == 1 and SR.pure(hc[0].args[-1], ("payload", tf[0].result.t, "Ok", 0)), (nf, "handler-arg"), "%s does not call the handler exactly once with the DID parsed from the input" % ty):
+                continue
+            hv = q.variant.get(hc[0].result.t)
+            if hv == "Err":
+                r3.require(SR.is_failure(q.ret) and "HandlerError" in str(q.ret), (nf, "errors"), "%s: a handler failure is not reported as HandlerError: %s" % (ty, q.ret))
+                rows.add("handler-err")
+            else:
+                okr = isinstance(q.ret, sym.V) and q.ret.name == "Ok" and q.ret.fields and SR.pure(q.ret.fields[0], ("payload", hc[0].result.t, "Ok", 0))
+                r3.require(okr, (nf, "returns"), "%s does not return the document the handler produced: %s" % (ty, q.ret))
+                rows.add("ok")
+        tables[ty] = rows
+        r3.site("%s: rows %s" % (ty, sorted(rows)))
+        r3.require(rows == {"parse-err", "handler-err", "ok"}, (nf, "errors"), "%s does not have the three outcomes parse error / handler error / document: %s" % (ty, sorted(rows)))
+    if len(tables) == 2:
+        r3.require(tables["SendSyncCommand"] == tables["SingleThreadedCommand"], (CM, "siblings-differ"), "SendSyncCommand and SingleThreadedCommand behave differently")
     tr = F.traits.get(CM + "::Command")
     if r3.anchor(tr, "Command trait"):
-        sealed = any(s.get("exported") is False for s in tr["supertraits"])
+        sealed = any(s_.get("exported") is False for s_ in tr["supertraits"])
         r3.site("Command supertraits %s" % tr["supertraits"])
         r3.require(sealed, (CM + "::Command", "sealed"), "the Command trait is no longer sealed")
-    r3.floor(6)
+    r3.floor(3)
 
     # ------------------------------------------------------------------ R4 did:jwk
-    r4 = R.rule("C20-R4", "T3", "expand_did_jwk: the single method is VerificationMethod::try_from(did_jwk) = new_from_jwk(did, did.jwk(), \"0\"), referenced from four relationships; the document id is the DID")
+    r4 = R.rule("C20-R4", "T8", "expand_did_jwk, evaluated abstractly with the builder steps as recorded calls: the document id is the DID, the single embedded method is VerificationMethod::try_from(did_jwk)?, each of the four relationships references that method's id exactly once, the result is build(); TryFrom<DIDJwk> = new_from_jwk(did, did.jwk(), Some(\"0\"))")
     fn = CD + "::expand_did_jwk"
-    h = F.hir(fn)
-    if r4.anchor(h, fn):
-        env = H.Env(h)
-        steps = [n["name"] for n in H.walk(H.root(h)) if n.get("k") == "mcall" and (H.fn_name(n) or "").startswith("identity_document::document::builder::DocumentBuilder::")]
-        r4.site("builder steps %s" % sorted(steps), h["value"]["sp"])
-        r4.require(sorted(steps) == sorted(["id", "verification_method", "assertion_method", "authentication", "capability_invocation", "capability_delegation", "build"]), (fn, "builder-steps"),
-                   "expand_did_jwk does not build {id, one verification method, four references}: %s" % sorted(steps))
-        for n in H.walk(H.root(h)):
-            if n.get("k") == "mcall" and n["name"] == "verification_method" and (H.fn_name(n) or "").startswith("identity_document::document::builder"):
-                oo = H.origins(n["args"][0], env)
-                r4.require(bool(oo) and all(o[0] == "call" and re.search(r"VerificationMethod as core::convert::TryFrom<identity_did::did_jwk::DIDJwk>>::try_from$|TryFrom::try_from$", o[1]) for o in oo), (fn, "method-source"), "the method is not VerificationMethod::try_from(did_jwk): %s" % sorted(map(str, oo)))
-            if n.get("k") == "mcall" and n["name"] == "id" and (H.fn_name(n) or "").startswith("identity_document::document::builder"):
-                oo = H.origins(n["args"][0], env)
-                r4.require(oo == {("param", "did_jwk")}, (fn, "id"), "the document id is not the did:jwk DID itself")
+    if r4.anchor(F.hir(fn), fn):
+        tab = SR.Table(F, fn, opaque=r"DocumentBuilder::\w+$|TryFrom::try_from$|TryFrom<.*>>::try_from$", rule=r4)
+        DJ = SR.param("did_jwk")
+        okb = bool(tab.ok())
+        for q in tab.paths:
+            tf = [e for e in q.calls(r"try_from$") if e.args and SR.pure(e.args[0], DJ)]
+            if not r4.require(len(tf) == 1, (fn, "method-source"), "the method is not built by VerificationMethod::try_from(did_jwk)"):
+                okb = False
+                continue
+            steps = [(e.name, e) for e in q.events if e.kind == "call" and re.search(r"DocumentBuilder::\w+$", re.sub(r"<[^<>]*>", "", e.fn or ""))]
+            if q.variant.get(tf[0].result.t) == "Err":
+                r4.require(SR.is_failure(q.ret), (fn, "method-source"), "expand_did_jwk succeeds although the verification method could not be built")
+                continue
+            VMT = ("payload", tf[0].result.t, "Ok", 0)
+            names = sorted(n_ for n_, _ in steps if n_ not in ("default", "new"))
+            if not r4.require(names == sorted(["id", "verification_method", "assertion_method", "authentication", "capability_invocation", "capability_delegation", "build"]), (fn, "builder-steps"),
+                              "expand_did_jwk does not build {id, one verification method, four references}: %s" % names):
+                okb = False
+                continue
+            for n_, e in steps:
+                if n_ == "id":
+                    r4.require(SR.pure(e.args[1], DJ), (fn, "id"), "the document id is not the did:jwk DID itself: %s" % sym.fmt(sym.term(e.args[1])))
+                elif n_ == "verification_method":
+                    r4.require(SR.pure(e.args[1], VMT), (fn, "method-source"), "the embedded method is not VerificationMethod::try_from(did_jwk)?: %s" % sym.fmt(sym.term(e.args[1])))
+                elif n_ in ("assertion_method", "authentication", "capability_invocation", "capability_delegation"):
+                    a_ = sym.term(e.args[1])
+                    r4.require(SR.derives(a_, VMT) and not SR.pure(a_, VMT) and "id" in sym.fmt(a_), (fn, "reference", n_), "%s is not a reference to the embedded method's id: %s" % (n_, sym.fmt(a_)))
+                elif n_ == "build":
+                    r4.require(SR.pure(q.ret, e.result.t) or (isinstance(q.ret, sym.V) and q.ret.fields and SR.derives(q.ret.fields[0], e.result.t)) or SR.derives(q.ret, e.result.t), (fn, "returns"), "expand_did_jwk does not return the built document")
+        r4.site("expand_did_jwk: id = did, method = try_from(did)?, 4 references to its id, build(): %s" % okb)
     tfn = (F.find(r"^<identity_verification::verification_method::method::VerificationMethod as core::convert::TryFrom<identity_did::did_jwk::DIDJwk>>::try_from$") or [None])[0]
-    h = F.hir(tfn) if tfn else None
-    if r4.anchor(h, "TryFrom<DIDJwk> for VerificationMethod"):
-        env = H.Env(h)
-        nj = H.calls(h, VM + "::new_from_jwk")
-        if r4.require(len(nj) == 1, (tfn, "new_from_jwk"), "TryFrom<DIDJwk> does not build the method with new_from_jwk"):
-            a = nj[0]["args"]
-            o0 = H.origins(a[0], env)
-            o1 = H.origins(a[1], env, accessors=re.compile(r"DIDJwk::jwk$"))
-            lits = H.literals(a[2])
-            r4.site("new_from_jwk(did ← %s, key ← %s, fragment %s)" % (sorted(map(str, o0)), sorted(map(str, o1)), lits), nj[0]["sp"])
-            r4.require(o0 == {("param", "did")}, (tfn, "did"), "the method's DID is not the did:jwk DID")
-            r4.require(o1 == {("param", "did", "jwk")}, (tfn, "key"), "the method's key is not exactly did.jwk() (no projection or transformation): %s" % sorted(map(str, o1)))
-            r4.require(lits == ["0"], (tfn, "fragment"), "the method fragment is not \"0\" (did:jwk specification)")
+    if r4.anchor(F.hir(tfn) if tfn else None, "TryFrom<DIDJwk> for VerificationMethod"):
+        tab = SR.Table(F, tfn, opaque=r"VerificationMethod::new_from_jwk$|DIDJwk::jwk$", rule=r4)
+        DID_ = SR.param("did")
+        okt = bool(tab.paths)
+        for q in tab.paths:
+            nj = q.calls(r"VerificationMethod::new_from_jwk$")
+            if not r4.require(len(nj) == 1, (tfn, "new_from_jwk"), "TryFrom<DIDJwk> does not build the method with new_from_jwk"):
+                okt = False
+                continue
+            a = nj[0].args
+            r4.require(SR.pure(a[0], DID_), (tfn, "did"), "the method's DID is not the did:jwk DID")
+            kt = sym.term(a[1])
+            r4.require(isinstance(kt, tuple) and kt[:1] == ("call",) and kt[1].endswith("DIDJwk::jwk") and all(SR.pure(x, DID_) for x in kt[2]) or SR.pure(kt, ("call", "identity_did::did_jwk::DIDJwk::jwk", (DID_,))), (tfn, "key"),
+                       "the method's key is not exactly did.jwk() (no projection or transformation): %s" % sym.fmt(kt))
+            fr = a[2]
+            r4.require(isinstance(fr, sym.V) and fr.name == "Some" and fr.fields == ("0",), (tfn, "fragment"), "the method fragment is not \"0\" (did:jwk specification): %s" % (fr,))
+            r4.require(SR.pure(q.ret, nj[0].result.t), (tfn, "returns"), "TryFrom<DIDJwk> does not return the method it built")
+        r4.site("TryFrom<DIDJwk>: new_from_jwk(did, did.jwk(), Some(\"0\")): %s" % okt)
     r4.floor(2)
